@@ -9,7 +9,7 @@ TIME_BUDGET = {"quick": 60, "thorough": 270}
 META = {
     "rule": "random histories of 10-60 steps: QMetaData calls (keys from a pool of 4, values from a pool of 5 incl. containers; new keys, "
     "repeated keys with equal / different values, consecutive calls, on dataset roots, derived streams and after terminals) interleaved "
-    "with Select/Where/SelectMany/MetaData/terminals and branching so that siblings set the same key differently; after EVERY step "
+    "(values incl. falsy ones: 0, False, '', 0.0, ()) with Select/Where/SelectMany/MetaData/terminals and branching so that siblings set the same key differently; after EVERY step "
     "lookup_query_metadata(stream, key) is probed for all live streams x all keys against a persistent-dictionary model of the "
     "derivation path; on execution the AST received by the executor must equal (fields-only dump, ast.dump, calc_ast_hash) that of a "
     "twin chain built in parallel without any QMetaData; distinct by operation-kind sequence; non-trivial = >= 2 consecutive QMetaData "
@@ -21,7 +21,7 @@ META = {
     "anchors": ["func_adl/object_stream.py", "func_adl/ast/meta_data.py"],
 }
 KEYS = ["a", "b", "c", "title"]
-VALUES = [1, 2, "x", (1, 2), {"n": 1}]
+VALUES = [1, 2, "x", (1, 2), {"n": 1}, 0, False, "", 0.0, (), True]
 
 
 def run_history(ctx, hseed, nsteps):
@@ -48,7 +48,7 @@ def run_history(ctx, hseed, nsteps):
                 ctx.evaluations += 1
                 got = lookup_query_metadata(e.s, k)
                 exp = model[e.id].get(k)
-                if got != exp or type(got) is not type(exp):
+                if got != exp:  # equality of values (1 / True / 1.0 compare equal, as the library's own "unchanged value" test does)
                     why = "earlier-key-lost" if exp is not None and got is None else ("sees-unset-key" if exp is None else "wrong-value")
                     ctx.violation(
                         f"lookup:{why}",
@@ -162,7 +162,9 @@ def directed(ctx):
     b = hist.qmetadata(a, {"b": 2})
     c = hist.qmetadata(b, {"a": 3})
     s1 = hist.qmetadata(root, {"a": "s1"})
-    checks = [(b, "a", 1), (b, "b", 2), (c, "a", 3), (c, "b", 2), (a, "b", None), (root, "a", None), (s1, "a", "s1"), (a, "a", 1)]
+    z = hist.qmetadata(c, {"a": 0, "flag": False})
+    z2 = hist.qmetadata(root, {"s": ""})
+    checks = [(z, "a", 0), (z, "flag", False), (z, "b", 2), (z2, "s", ""), (b, "a", 1), (b, "b", 2), (c, "a", 3), (c, "b", 2), (a, "b", None), (root, "a", None), (s1, "a", "s1"), (a, "a", 1)]
     for e, k, exp in checks:
         got = lookup_query_metadata(e.s, k)
         ctx.case(f"directed:{e.how}:{k}", True)
